@@ -124,6 +124,14 @@ def flat_rechunk(ctx, rule, lname):
     if len(outer_c) != 1:
         ctx.bad(rule, lname + ":chunking", "outer-chunks-not-over-input-vector", where, "")
         return
+    # immutable scalar temporaries of the arm (`let plane = h * w;`)
+    for s_ in walk(arm["body"]):
+        if s_.get("k") == "let" and s_["pat"].get("k") == "bind" and s_.get("init") is not None and "Mut)" not in str(s_["pat"].get("mode")) and s_["pat"]["hid"] not in env:
+            if (c.types[s_["pat"]["t"]] or "").lstrip("&") == "usize":
+                try:
+                    env[s_["pat"]["hid"]] = e1.Norm(c, env).norm(s_["init"])
+                except ValueError:
+                    pass
     N = e1.Norm(c, env)
     o = N.norm(outer_c[0]["args"][0])
     i = N.norm(inner_c[0]["args"][0])
